@@ -651,3 +651,6 @@ for _pid in ("C05", "C06"):
     PLANS[_pid]["thorough"] = PLANS[_pid]["thorough"] + [_SAA, _ASAS]
     PLANS[_pid]["bounds"] = dict(PLANS[_pid]["bounds"], quick=PLANS[_pid]["bounds"]["quick"] + "; solve ; any ; any over the full alphabet (174k histories)", thorough=PLANS[_pid]["bounds"]["thorough"] + "; any ; solve ; any ; solve over the full alphabet (697k histories)")
 _dl("C05", thorough=3000); _dl("C06", thorough=3000)
+
+PLANS["C07"]["thorough"] = [hist("inv-d1-san", "san", 1, family="inv", weight=6), hist("inv-d1-prod", "prod", 1, family="inv", weight=1), hist("inv-d2r-prod", "prod", 2, reduced=1, family="inv", weight=3)]
+_dl("C07", thorough=2400)
